@@ -1,5 +1,6 @@
 import Vanguard.Lemmas.Headers
 import Vanguard.Lemmas.TargetHeaders
+import Vanguard.Lemmas.TimeoutHeader
 import Vanguard.Model.Run
 import Vanguard.Lemmas.ReframeStream
 import Vanguard.Lemmas.WellFramed
@@ -138,6 +139,18 @@ theorem backend_encoding_header (w : World) (sc : Scenario) (o : Op) (pl : Handl
                      acceptCompression := intersection w.knownCompression o.reqMeta.acceptCompression } o.headers k hk
     (by simp [hz, hne])
   simpa [hz] using this
+
+/-- **The fixed markers of the target protocol**: the request handed to a gRPC backend says `Te: trailers`, the one
+    handed to a unary Connect backend `Connect-Protocol-Version: 1` - exactly once, whatever the client sent under
+    these names. -/
+theorem backend_protocol_markers (w : World) (sc : Scenario) (o : Op) (pl : HandlePlan) (st : St)
+    (first : Option (Bytes × Bool)) :
+    (o.sform = .grpc → (transcodeRun w sc o pl st first).backend.headers.values (s "Te") = [s "trailers"]) ∧
+    (o.sform = .connectUnary →
+      (transcodeRun w sc o pl st first).backend.headers.values (s "Connect-Protocol-Version") = [s "1"]) := by
+  unfold transcodeRun
+  simp only
+  exact target_protocol_markers o.sform _ o.headers
 
 /-- **No left-over control header**: after validation the headers handed on contain no control header
     of the client's own protocol and no `Content-Encoding` / `Accept-Encoding` / `Content-Length`, so the
